@@ -337,6 +337,18 @@ def histOp (st : HistState) (op : String) (args : List String) : Option (HistSta
     let w ← st.w
     let (ns, _) ← pNat args
     some ({ st with w := some (step w (.advance ns)) }, "ok")
+  | "mint" => do
+    -- the chain hands `to` new tokens (bank module, no contract involved): balance and supply grow together.  This is a change
+    -- of the WORLD between transactions, not a transaction: it is applied here, outside `step` (the theorems quantify over every
+    -- world satisfying the invariants, which a mint to a user account preserves)
+    let w ← st.w
+    let (to, ts) ← pTok args
+    let (cs, _) ← pCoins ts
+    if !(USERS.contains to) then some (st, "err") else
+    let bank := cs.foldl (fun (b : Bank) c =>
+      { b with bal := fun a d => if a == to && d == c.denom then b.bal a d + c.amount else b.bal a d,
+               supply := fun d => if d == c.denom then b.supply d + c.amount else b.supply d }) w.bank
+    some ({ st with w := some { w with bank := bank } }, "ok")
   | "send" => do
     let w ← st.w
     let (frm, ts) ← pTok args
